@@ -253,6 +253,10 @@ PROPS = {
 }
 
 
+import labprops  # noqa: E402  (registers C05, C14, C15 and the lab stage of C03)
+labprops.register(PROPS)
+
+
 def rapid_seed(seed, shard, stage):
     s = (seed * 1000003 + shard * 7919 + stage * 104729 + 12345) & 0x7fffffff
     return s or 1
@@ -271,7 +275,7 @@ def save_failure(pid, content, suffix=".json"):
     return p
 
 
-def prepare(D, pid, cfg, W, race=False):
+def prepare(D, pid, cfg, W, race=False, tier="quick", replay=None):
     """Build parquetgen + fixtures + test binary. Returns None or (rc, violation_replay_path)."""
     if not W.build_parquetgen():
         msg = json.dumps({"property": pid, "key": pid + "/parquetgen-build", "msg": W.parquetgen_log[-4000:]}, indent=1)
@@ -290,7 +294,7 @@ def prepare(D, pid, cfg, W, race=False):
             raise D.Infra("parquetgen failed on fixture %s:\n%s" % (fxn, log[-2000:]))
         pkgs.append("fixtures/" + fxn)
     if "prepare" in cfg:
-        extra = cfg["prepare"](D, pid, cfg, W)
+        extra = cfg["prepare"](D, pid, cfg, W, tier, replay)
         pkgs.extend(extra or [])
     W.write_imports(pkgs)
     ok, log = W.build_tests(race=race)
@@ -372,15 +376,22 @@ def run_property(D, pid, tier, seed, replay):
 
 
 def _run(D, pid, cfg, tier, seed, replay, W, t0):
-    pre = prepare(D, pid, cfg, W)
+    pre = prepare(D, pid, cfg, W, tier=tier, replay=replay)
+    print("[driver] %s: build phase %.1fs" % (pid, time.time() - t0))
     if pre is not None:
         rc, path = pre
         print("VIOLATION property=%s replay=%s" % (pid, path))
         write_min_evidence(D, pid, cfg, tier, seed, t0, 1, "build of generated code failed; see replay file")
         return 1
 
+    def renv(path):
+        e = dict(cfg.get("env") or {})
+        if "replay_env" in cfg:
+            e.update(cfg["replay_env"](W, os.path.abspath(path)))
+        return e
+
     if replay:
-        st, out = run_replay(D, W, cfg["replay"], os.path.abspath(replay), pid, cfg.get("env"))
+        st, out = run_replay(D, W, cfg["replay"], os.path.abspath(replay), pid, renv(replay))
         print(out[-6000:])
         if st == "fail":
             print("VIOLATION property=%s replay=%s" % (pid, os.path.abspath(replay)))
@@ -398,7 +409,7 @@ def _run(D, pid, cfg, tier, seed, replay, W, t0):
     for path in sorted(glob.glob(os.path.join(rdir, "*.json"))):
         if os.path.normpath(path) in known_paths:
             continue
-        st, out = run_replay(D, W, cfg["replay"], path, pid, cfg.get("env"))
+        st, out = run_replay(D, W, cfg["replay"], path, pid, renv(path))
         replayed += 1
         if st == "fail":
             violations.append(path)
@@ -407,11 +418,12 @@ def _run(D, pid, cfg, tier, seed, replay, W, t0):
             infra.append("replay %s: %s" % (path, out[-1500:]))
     # ---- known findings: print a line for each that still reproduces
     known_lines = []
+    deferred_known = []
     for k in D.known_entries(pid):
         if not k["replay"]:
-            known_lines.append("KNOWN-FINDING: property=%s %s" % (pid, k["what"]))
+            deferred_known.append(k)  # printed after the run, if the key was hit
             continue
-        st, out = run_replay(D, W, cfg["replay"], os.path.join(D.VERIF, k["replay"]), pid, cfg.get("env"))
+        st, out = run_replay(D, W, cfg["replay"], os.path.join(D.VERIF, k["replay"]), pid, renv(os.path.join(D.VERIF, k["replay"])))
         if st == "known":
             known_lines.append("KNOWN-FINDING: property=%s %s" % (pid, k["what"]))
         elif st == "ok":
@@ -427,6 +439,8 @@ def _run(D, pid, cfg, tier, seed, replay, W, t0):
 
     # ---- main stages
     statfiles = []
+    catalogue = []
+    W.catalogue = catalogue
     completed = {}
     requested = {}
     faildir = os.path.join(W.dir, "fail")
@@ -461,11 +475,15 @@ def _run(D, pid, cfg, tier, seed, replay, W, t0):
                 jobs.append((sh, ex.submit(run_shard, os.path.join(W.bin, st.get("bin", "props.test")), os.path.join(W.h, "props"), env, args, tmo)))
             for sh, fut in jobs:
                 rc, out = fut.result()
+                if os.environ.get("VERIF_VERBOSE"):
+                    print("[driver] stage %s shard %d done rc=%s at %.1fs" % (st["test"], sh, rc, time.time() - t0))
                 m = re.search(r"OK, passed (\d+) tests", out)
                 if m:
                     completed[st["test"]] = completed.get(st["test"], 0) + int(m.group(1))
                 if st["kind"] == "rapid":
                     requested[st["test"]] = requested.get(st["test"], 0) + per
+                for cl in re.findall(r"^(C\d\d)-SHAPE (\S+) (\S+) (\S+) :: (.*)$", out, re.M):
+                    catalogue.append(cl)
                 if rc != 0:
                     ff = os.path.join(faildir, "%s-%d_%d.json" % (pid, si, sh))
                     if os.path.exists(ff):
@@ -476,11 +494,37 @@ def _run(D, pid, cfg, tier, seed, replay, W, t0):
                         infra.append("stage %s shard %d rc=%s:\n%s" % (st["test"], sh, rc, out[-2500:]))
 
     ev, distinct, labels, samples, known_hits, excluded = D.aggregate(statfiles)
+    cov_extra = {}
+    if "post" in cfg:
+        v2, cov_extra, lines = cfg["post"](D, pid, cfg, W, tier)
+        violations.extend(v2)
+        for l in lines:
+            print(l)
+    if os.environ.get("VERIF_CATALOGUE"):
+        with open(os.environ["VERIF_CATALOGUE"], "a") as cf_:
+            for (p_, name, cls, shape, msg) in catalogue:
+                cf_.write("known: property=%s key=%s/%s/shape=%s :: %s: %s\n" % (p_, p_, cls, shape, cls, msg[:160].replace(" :: ", " : ")))
+            for l in cov_extra.get("catalogue_lines", []):
+                cf_.write(l + "\n")
+    hit_keys = set(known_hits) | set(cov_extra.get("known_finding_hits_build", {}))
+    not_met = 0
+    for k in deferred_known:
+        pat = k["key"]
+        hit = any(h == pat or (pat.endswith("*") and h.startswith(pat[:-1])) for h in hit_keys)
+        if hit:
+            print("KNOWN-FINDING: property=%s %s" % (pid, k["what"]))
+        else:
+            not_met += 1
+            if os.environ.get("VERIF_VERBOSE"):
+                print("[driver] note: listed finding not encountered in this run (tier %s): %s" % (tier, k["key"]))
+    if not_met:
+        print("[driver] note: %d listed findings were not encountered in this run (their inputs are outside this tier's domain or no longer fail)" % not_met)
     wall = time.time() - t0
     cov = {"evaluations": ev, "distinct_nontrivial": distinct, "rule": cfg["rule"], "samples": samples,
            "class_histogram": dict(sorted(labels.items())), "replayed_regression_inputs": replayed,
            "rapid_checks_requested": requested, "rapid_checks_completed": completed,
            "known_finding_hits": known_hits, "excluded_by_known_finding": excluded}
+    cov.update(cov_extra)
     if cfg.get("exhaustive_" + tier):
         cov["exhaustive"] = True
     if cfg.get("programs"):
